@@ -178,3 +178,71 @@ func jsepHelperOffer(r *kit.Rand) (SessionDescription, error) {
 
 	return h.CreateOffer(nil)
 }
+
+// jsepReach drives pc into the wanted state; returns false when that failed (inconclusive for that case).
+func jsepReach(pc *PeerConnection, r *kit.Rand, st SignalingState) error {
+	switch st {
+	case SignalingStateStable:
+		return nil
+	case SignalingStateHaveLocalOffer, SignalingStateHaveRemotePranswer:
+		o, err := pc.CreateOffer(nil)
+		if err != nil {
+			return err
+		}
+		if err = pc.SetLocalDescription(o); err != nil {
+			return err
+		}
+		if st == SignalingStateHaveLocalOffer {
+			return nil
+		}
+		a, err := jsepHelperAnswer(o)
+		if err != nil {
+			return err
+		}
+		a.Type = SDPTypePranswer
+
+		return pc.SetRemoteDescription(a)
+	default: // have-remote-offer, have-local-pranswer
+		o, err := jsepHelperOffer(r)
+		if err != nil {
+			return err
+		}
+		if err = pc.SetRemoteDescription(o); err != nil {
+			return err
+		}
+		if st == SignalingStateHaveRemoteOffer {
+			return nil
+		}
+		a, err := pc.CreateAnswer(nil)
+		if err != nil {
+			return err
+		}
+		a.Type = SDPTypePranswer
+
+		return pc.SetLocalDescription(a)
+	}
+}
+
+func jsepExchange(pc *PeerConnection, r *kit.Rand, asOfferer bool) error {
+	if asOfferer {
+		if err := jsepReach(pc, r, SignalingStateHaveLocalOffer); err != nil {
+			return err
+		}
+		a, err := jsepHelperAnswer(*pc.PendingLocalDescription())
+		if err != nil {
+			return err
+		}
+
+		return pc.SetRemoteDescription(a)
+	}
+	if err := jsepReach(pc, r, SignalingStateHaveRemoteOffer); err != nil {
+		return err
+	}
+	a, err := pc.CreateAnswer(nil)
+	if err != nil {
+		return err
+	}
+
+	return pc.SetLocalDescription(a)
+}
+
